@@ -6,6 +6,7 @@ Case kinds
   pack          pack_bitlist: emitted shli/ori tree and its value   (Model/PackBits.lean)
   at_tomap / at_frommap / at_compose   AffineTransform              (Model/AffineTransform.lean)
   sp_syntax / cfg_syntax   attribute print -> lex -> parse          (Model/AttrSyntax.lean)
+  ap            Access/Schedule/TemplatePattern construct, canonicalize, inner_dims (Model/AccessCanon.lean)
   opt_table     names of STREAMER_OPT_MAP
 """
 import io
@@ -374,6 +375,55 @@ def default_cfgs():
     return out
 
 
+# ------------------------------------------------------------------------------------------------
+# AccessPattern / SchedulePattern / TemplatePattern
+AP_CLS = {"access": "AccessPattern", "schedule": "SchedulePattern", "template": "TemplatePattern"}
+AP_CLS_INV = {v: k for k, v in AP_CLS.items()}
+
+
+def gen_ap(rng):
+    cls = rng.choice(["access", "schedule", "schedule", "template", "template"])
+    n = rng.choice([0, 1, 2, 3, 3, 4, 5])
+    if cls == "schedule":
+        pool = [1, 1, 1, 2, 2, 3, 4, 8]
+        bounds = [rng.choice(pool) for _ in range(n)]
+        if rng.random() < 0.06 and n:
+            bounds[rng.randrange(n)] = rng.choice([0, -1, None])  # the constructor must refuse
+            if rng.random() < 0.5:
+                bounds[rng.randrange(n)] = rng.choice([0, None])
+    else:
+        pool = [None, None, 1, 1, 1, 2, 2, 3, 4, 8]
+        bounds = [rng.choice(pool) for _ in range(n)]
+        if rng.random() < 0.05 and n:
+            bounds[rng.randrange(n)] = rng.choice([0, 0, -2])        # lossy case (DC19a)
+    nd = n if rng.random() < 0.96 else max(0, n + rng.choice([-1, 1]))
+    t = gen_T(rng, rows=rng.choice([0, 1, 1, 2, 3]), cols=nd)
+    t["A"] = [[v if rng.random() < 0.8 else rng.choice([5, 7, 16, -3]) for v in row] for row in t["A"]]
+    return {"kind": "ap", "cls": cls, "bounds": bounds, "t": t, "dim": rng.choice([-1, 0, 1, 1, 2, 2, 3, n, n + 2])}
+
+
+def mk_ap(cls, bounds, t):
+    import snaxc.ir.dart.access_pattern as apm
+    return getattr(apm, AP_CLS[cls])(bounds, mk_T(t))
+
+
+def ap_json(p):
+    return {"cls": AP_CLS_INV.get(type(p).__name__, type(p).__name__),
+            "bounds": [None if b is None else int(b) for b in p.bounds], "t": T_json(p.pattern)}
+
+
+def box_points(bounds, seed, dyn=3, limit=1500):
+    """points of the iteration box; dynamic dims are sampled at 0..dyn-1 and two larger indices"""
+    ranges = [list(range(dyn)) + [7, 1000] if b is None else list(range(b)) for b in bounds]
+    size = 1
+    for r in ranges:
+        size *= len(r)
+    if size <= limit:
+        return [list(x) for x in itertools.product(*ranges)]
+    r = random.Random(seed)
+    return [[r.choice(rg) for rg in ranges] for _ in range(limit)]
+
+
 class C19(Prop):
     id = "C19"
     PARALLEL = True
@@ -384,6 +434,7 @@ class C19(Prop):
         "compared with the harness's nested-loop enumeration on every case",
         "modelled: pack_bitlist op tree (Model/PackBits.lean); the harness interprets the real emitted arith ops",
         "modelled: AffineTransform eval/compose/to_affine_map/from_affine_map over unbounded integers (Model/AffineTransform.lean)",
+        "modelled: AccessPattern/SchedulePattern/TemplatePattern constructors, canonicalize, inner_dims (Model/AccessCanon.lean)",
         "modelled at token level: StridePattern / StreamerConfigurationAttr print+parse (Model/AttrSyntax.lean); "
         "xDSL's MLIR lexer and parser primitives are exercised, not modelled",
     ]
@@ -395,10 +446,11 @@ class C19(Prop):
         "pack_bitlist: values/offsets are interpreted as dtype-bit unsigned words; shift amounts >= dtype (poison for "
         "arith.shli) are not generated",
         "AffineTransform: numpy int64 overflow is not modelled (the model is over unbounded Int)",
-        "AccessPattern.canonicalize / inner_dims are not modelled here",
+        "access patterns: the iteration box of a dynamic (None) bound is all naturals; the oracle samples indices "
+        "0,1,2,7,1000 on such dimensions; PatternCollection.clear_unused_dims, rotate, tile_dim, add_dim belong to C03",
     ]
     rule = ("per kind: affine_canon non-trivial = canonical form differs from the input; sp_canon = canonical pattern "
-            "differs; pack = at least 2 fields; at_* = at least one row and one column; syntax = unmutated round trip "
+            "differs; pack = at least 2 fields; at_* = at least one row and one column; ap = at least one result and a dimension removed; syntax = unmutated round trip "
             "with a non-empty list; distinct by canonical JSON")
 
     # -- generators -----------------------------------------------------------------------------
@@ -444,6 +496,8 @@ class C19(Prop):
             s = gen_T(rng, cols=mid)
             o = gen_T(rng, rows=mid if rng.random() < 0.93 else mid + 1)
             yield {"kind": "at_compose", "s": s, "o": o, "seed": rng.randrange(1 << 30)}
+        for _ in range(500 if quick else 12000):
+            yield gen_ap(rng)
         muts = ["del", "dup", "swap", "minus", "comma"]
         for _ in range(250 if quick else 6000):
             n1 = rng.choice([0, 1, 2, 3, 5])
@@ -507,6 +561,22 @@ class C19(Prop):
             except Exception:
                 parsed = "error"
             return {"toks": toks, "parsed": parsed}
+        if k == "ap":
+            import snaxc.ir.dart.access_pattern as apm
+            p = mk_ap(case["cls"], case["bounds"], case["t"])   # ValueError / TypeError of the constructors
+            canon = ap_json(p.canonicalize())
+            try:
+                inner = ap_json(p.inner_dims(case["dim"]))
+            except ValueError:
+                inner = {"raised": "ValueError"}
+            coll_same = True
+            coll = {"schedule": apm.Schedule, "template": apm.Template}.get(case["cls"])
+            if coll is not None:   # the collection-level entry points go through the same code
+                c = coll([p, p])
+                coll_same = [ap_json(q) for q in c.canonicalize()] == [canon, canon]
+                if "raised" not in inner:
+                    coll_same = coll_same and [ap_json(q) for q in c.inner_dims(case["dim"])] == [inner, inner]
+            return {"canon": canon, "inner": inner, "coll_same": coll_same}
         if k == "opt_table":
             from snaxc.accelerators.streamers.extensions import STREAMER_OPT_MAP
             return {"names": sorted(STREAMER_OPT_MAP.keys()),
@@ -536,6 +606,9 @@ class C19(Prop):
                                                      "mut": case["mut"]}}]
         if k == "cfg_syntax":
             return [{"fn": "c19.cfg_syntax", "args": {"cfg": case["cfg"], "mut": case["mut"]}}]
+        if k == "ap":
+            return [{"fn": "c19.ap", "args": {"cls": case["cls"], "bounds": case["bounds"], "t": case["t"],
+                                              "dim": case["dim"]}}]
         if k == "opt_table":
             return [{"fn": "c19.opt_table", "args": {}}]
         return []
@@ -579,6 +652,10 @@ class C19(Prop):
             if not case["cfg"]["streamers"]:
                 return {"raised": "AssertionError"}
             return {"toks": a["toks"], "parsed": "error" if a["parsed"] is None else a["parsed"]}
+        if k == "ap":
+            if "raised" in a:
+                return a
+            return {"canon": a["canon"], "inner": a["inner"], "coll_same": True}
         if k == "opt_table":
             return {"names": sorted(a), "classes_distinct": len(set(a)) == len(a), "name_is_key": True}
 
@@ -735,6 +812,71 @@ class C19(Prop):
                     bad("streamer configuration with system type xdma parses back as reg", "D16")
                 else:
                     bad(f"streamer configuration parses back as {p}")
+        elif k == "ap":
+            bounds, t = case["bounds"], case["t"]
+            n = len(bounds)
+            must_raise = n != t["nd"] or (case["cls"] == "schedule" and any(b is None or b <= 0 for b in bounds))
+            if "raised" in impl_out:
+                if not must_raise:
+                    bad(f"{AP_CLS[case['cls']]} constructor raised {impl_out['raised']}: {impl_out.get('msg')}")
+                return out
+            if must_raise:
+                bad(f"{AP_CLS[case['cls']]} accepted bounds {bounds} for a pattern with {t['nd']} dims")
+                return out
+            if not impl_out["coll_same"]:
+                bad("Schedule/Template.canonicalize or inner_dims differs from the per-pattern result")
+            c = impl_out["canon"]
+            ct = c["t"]
+            if c["cls"] != case["cls"]:
+                bad(f"canonicalize changed the class to {c['cls']}")
+            # which dimensions survive: those that can take a non-zero index; a dimension whose box is empty
+            # (static bound <= 0) may be kept or not by a correct implementation
+            k1 = [i for i, b in enumerate(bounds) if b is None or b > 1]
+            k2 = [i for i, b in enumerate(bounds) if b is None or b != 1]
+            kept = next((kk for kk in (k1, k2) if c["bounds"] == [bounds[i] for i in kk] and ct["nd"] == len(kk)), None)
+            if kept is None:
+                bad(f"canonicalize: bounds {bounds} -> {c['bounds']}: the dimensions that can take a non-zero index are "
+                    f"{[bounds[i] for i in k1]}")
+            elif ct["b"] != t["b"] or len(ct["A"]) != len(t["A"]):
+                bad("canonicalize changed the offset vector / number of results")
+            else:
+                for x in box_points(bounds, 17):
+                    want = py_affine(t, x)
+                    got = py_affine(ct, [x[i] for i in kept])
+                    if want != got:
+                        bad(f"canonical pattern evaluates to {got} instead of {want} at index {x} (bounds {bounds} -> {c['bounds']})")
+                        break
+                empty0 = any(b is not None and b <= 0 for b in bounds)
+                empty1 = any(b is not None and b <= 0 for b in c["bounds"])
+                if empty0 and not empty1:
+                    bad(f"canonicalize turns the empty iteration space {bounds} into the non-empty {c['bounds']}", "DC19a")
+                elif empty1 and not empty0:
+                    bad("canonical pattern has an empty iteration space, the original has not")
+                c2 = ap_json(mk_ap(c["cls"], c["bounds"], ct).canonicalize())
+                if c2 != c:
+                    bad(f"canonicalize not idempotent: {c} -> {c2}")
+            inner = impl_out["inner"]
+            if case["dim"] <= 0:
+                if "raised" not in inner:
+                    bad(f"inner_dims({case['dim']}) did not raise")
+            elif "raised" in inner:
+                bad(f"inner_dims({case['dim']}) raised {inner['raised']}")
+            else:
+                m = min(case["dim"], n)
+                it = inner["t"]
+                if inner["cls"] != case["cls"]:
+                    bad(f"inner_dims changed the class to {inner['cls']}")
+                if inner["bounds"] != bounds[n - m:] or it["nd"] != m:
+                    bad(f"inner_dims({case['dim']}) of bounds {bounds} has bounds {inner['bounds']} / {it['nd']} dims")
+                elif it["b"] != t["b"] or len(it["A"]) != len(t["A"]):
+                    bad("inner_dims changed the offset vector / number of results")
+                else:
+                    for y in box_points(inner["bounds"], 23):
+                        want = py_affine(t, [0] * (n - m) + y)
+                        got = py_affine(it, y)
+                        if want != got:
+                            bad(f"inner_dims({case['dim']}) evaluates to {got} instead of {want} at inner index {y}")
+                            break
         elif k == "opt_table":
             if not impl_out.get("classes_distinct") or not impl_out.get("name_is_key"):
                 bad("STREAMER_OPT_MAP is not a bijection between option names and classes")
@@ -756,6 +898,8 @@ class C19(Prop):
             return "ok" in impl_out and bool(case["rs"]) and case["n"] > 0 and any(depth(r) >= 2 for r in case["rs"])
         if k == "at_compose":
             return "ok" in impl_out and bool(case["s"]["b"]) and case["o"]["nd"] > 0 and case["s"]["nd"] > 0
+        if k == "ap":
+            return bool(case["t"]["b"]) and impl_out["canon"]["bounds"] != case["bounds"]
         if k == "sp_syntax":
             return case["mut"] is None and bool(case["ub"])
         if k == "cfg_syntax":
@@ -806,6 +950,19 @@ class C19(Prop):
                 if j[0] not in "dc":
                     yield dict(case, rs=[j[1]])
                     yield dict(case, rs=[j[2]])
+        elif k == "ap" and len(case["bounds"]) == case["t"]["nd"]:
+            t, bs = case["t"], case["bounds"]
+            for i in range(len(bs)):
+                yield dict(case, bounds=bs[:i] + bs[i + 1:],
+                           t={"nd": t["nd"] - 1, "A": [r[:i] + r[i + 1:] for r in t["A"]], "b": t["b"]})
+            for i in range(len(t["b"])):
+                if len(t["b"]) > 1:
+                    yield dict(case, t={"nd": t["nd"], "A": t["A"][:i] + t["A"][i + 1:], "b": t["b"][:i] + t["b"][i + 1:]})
+            for i, b in enumerate(bs):
+                if b is not None and b > 2:
+                    yield dict(case, bounds=bs[:i] + [2] + bs[i + 1:])
+            if any(v not in (0, 1) for r in t["A"] for v in r):
+                yield dict(case, t=dict(t, A=[[i + 1 for i, _ in enumerate(r)] for r in t["A"]]))
         elif k == "cfg_syntax":
             ss = case["cfg"]["streamers"]
             if len(ss) > 1:
